@@ -26,11 +26,13 @@ const (
 	rStriped
 	rConv
 	rAppendSrc
+	rStripedOther
+	rPure
 	numReaderOps
 )
 
-var readerSites = [numReaderOps]int{sRdMeta, sRdSample, sRdSlice, sRdChannel, sRdRead, sRdRead, sRdStriped, sRdConv, sRdAppendSrc}
-var readerOpNames = [numReaderOps]string{"meta", "Sample", "Slice+read", "Channel view", "Read[T,T]", "Read[T,float64]", "ReadStriped", "conversion-from", "private.Append(shared)"}
+var readerSites = [numReaderOps]int{sRdMeta, sRdSample, sRdSlice, sRdChannel, sRdRead, sRdRead, sRdStriped, sRdConv, sRdAppendSrc, sRdStriped, sRdMeta}
+var readerOpNames = [numReaderOps]string{"meta", "Sample", "Slice+read", "Channel view", "Read[T,T]", "Read[T,other type]", "ReadStriped", "conversion-from", "private.Append(shared)", "ReadStriped[T,other type]", "stateless helpers"}
 
 // writer operation kinds
 const (
@@ -43,11 +45,14 @@ const (
 	wMeta
 	wConvShared
 	wAppendSrcOwn
+	wWriteOther
+	wStripedOther
+	wPure
 	numWriterOps
 )
 
-var writerSites = [numWriterOps]int{sWrSet, sWrWrite, sWrStriped, sWrChannel, sWrConv, sWrRead, sRdMeta, sWrConv, sRdAppendSrc}
-var writerOpNames = [numWriterOps]string{"SetSample", "Write", "WriteStriped", "Channel(c).SetSample", "conversion-into", "read back own range", "meta of parent", "conversion from a read-only window of the shared buffer into own window", "private.Append(own window)"}
+var writerSites = [numWriterOps]int{sWrSet, sWrWrite, sWrStriped, sWrChannel, sWrConv, sWrRead, sRdMeta, sWrConv, sRdAppendSrc, sWrWrite, sWrStriped, sRdMeta}
+var writerOpNames = [numWriterOps]string{"SetSample", "Write", "WriteStriped", "Channel(c).SetSample", "conversion-into", "read back own range", "meta of parent", "conversion from a read-only window of the shared buffer into own window", "private.Append(own window)", "Write[other type,T]", "WriteStriped[other type,T]", "stateless helpers"}
 
 type shareOp struct {
 	kind    int
@@ -71,6 +76,7 @@ type shareProgram struct {
 	fillMode            int  // 0 arbitrary bit patterns, 1 ordinary values, 2 all zero, 3 one constant, 4 runs of equal samples
 	nest                bool // views are obtained by slicing twice
 	build               int  // how the buffer came to be (see buildShared)
+	concFirst           bool // the concurrent execution comes before the sequential reference (state a library initialises on first use)
 	raw                 bool // the tasks share the built header itself, not a Slice of it
 	tasks               []shareTask
 }
@@ -94,6 +100,9 @@ func drawShareProgram(prog *simrt.Stream, b Bounds) *shareProgram {
 		p.c = 1 + prog.Draw(8)
 	default:
 		p.c = 1 + prog.Draw(4*b.MaxC) // wide shapes: the quantifier does not bound the channel count
+	}
+	if prog.Draw(32) == 31 {
+		p.c = 60 + prog.Draw(80)
 	}
 	maxFrames := 64
 	if b.MaxK > 64 {
@@ -131,6 +140,7 @@ func drawShareProgram(prog *simrt.Stream, b Bounds) *shareProgram {
 	p.fillMode = prog.Draw(5)
 	p.nest = prog.Draw(3) == 2
 	p.build = prog.Draw(4)
+	p.concFirst = prog.Draw(2) == 1
 	p.raw = !p.window && prog.Draw(2) == 1
 	// Tasks and their operations are nested units, each preceded by the draw
 	// that decides whether it exists (0 = stop). Frame ranges are handed out
@@ -337,10 +347,19 @@ func (h *H[T]) readerOp(d *uint64, parent, view *signal.Buffer[T], op shareOp) {
 			mix64(d, bitsOf(v))
 		}
 	case rReadOther:
-		dst := make([]float64, sizeArg(op, view.Len()))
-		mix64(d, uint64(signal.Read(view, dst)))
-		for _, v := range dst {
-			mix64(d, bitsOf(v))
+		switch op.c / 2 % 6 {
+		case 0:
+			readInto[T, float64](d, view, op)
+		case 1:
+			readInto[T, int16](d, view, op)
+		case 2:
+			readInto[T, uint16](d, view, op)
+		case 3:
+			readInto[T, int32](d, view, op)
+		case 4:
+			readInto[T, float32](d, view, op)
+		default:
+			readInto[T, uint8](d, view, op)
 		}
 	case rStriped:
 		dst := make([][]T, c)
@@ -360,6 +379,17 @@ func (h *H[T]) readerOp(d *uint64, parent, view *signal.Buffer[T], op shareOp) {
 	case rConv:
 		cv := h.convSrc[int(op.a)%len(h.convSrc)]
 		cv.f(view, int(op.b)%(view.Length()+2), d)
+	case rStripedOther:
+		switch op.c % 3 {
+		case 0:
+			readStripedInto[T, float64](d, view, op)
+		case 1:
+			readStripedInto[T, int16](d, view, op)
+		default:
+			readStripedInto[T, uint32](d, view, op)
+		}
+	case rPure:
+		pureHelpers(d, op, view.Length(), c)
 	case rAppendSrc:
 		pl := int(op.a) % 3
 		priv := signal.Alloc[T](signal.Allocator{Channels: c, Length: pl, Capacity: pl + int(op.b)%(view.Length()+3)})
@@ -418,6 +448,25 @@ func (h *H[T]) writerOp(d *uint64, parent, own, ro *signal.Buffer[T], op shareOp
 		priv := signal.Alloc[T](signal.Allocator{Channels: c, Length: 0, Capacity: int(op.a) % (own.Length() + 2)})
 		priv.Append(own)
 		foldBuffer(d, priv)
+	case wWriteOther:
+		switch op.c / 2 % 4 {
+		case 0:
+			writeFrom[float64, T](d, own, op)
+		case 1:
+			writeFrom[int16, T](d, own, op)
+		case 2:
+			writeFrom[uint8, T](d, own, op)
+		default:
+			writeFrom[int32, T](d, own, op)
+		}
+	case wStripedOther:
+		if op.c%2 == 0 {
+			writeStripedFrom[float32, T](d, own, op)
+		} else {
+			writeStripedFrom[int8, T](d, own, op)
+		}
+	case wPure:
+		pureHelpers(d, op, own.Length(), c)
 	case wMeta:
 		// header reads of the shared parent while others work
 		mix64(d, uint64(parent.Len()))
@@ -549,20 +598,40 @@ func (h *H[T]) C19(rc *runCtx) *Violation {
 	seqSim.MaxSteps = sim.MaxSteps
 	seqSim.SiteNames = sim.SiteNames
 	seqSim.Tracing = sim.Tracing
-	seq := h.execShare(p, seqSim, "seq")
-	if seqSim.RaceAborted {
-		// the reference execution already produced a data race report (the
-		// race oracle does not depend on the schedule): nothing more to learn
-		return nil
-	}
-	if sim.Tracing {
-		rc.extraTrace = append([]string{"--- reference: the same program, task after task ---"}, seqSim.RenderTrace()...)
-		rc.extraTrace = append(rc.extraTrace, "--- the same program under the drawn schedule ---")
-	}
-	sim.Adopt(seqSim) // goroutines the library started during the reference execution live on
-	conc := h.execShare(p, sim, "conc")
-	if sim.RaceAborted {
-		return nil // reported as a data race by the worker
+	var seq, conc *shareResult
+	if p.concFirst {
+		// the concurrent execution first: whatever the library initialises on
+		// first use is then initialised under concurrency
+		conc = h.execShare(p, sim, "conc")
+		if sim.RaceAborted {
+			return nil // reported as a data race by the worker
+		}
+		seqSim.Adopt(sim)
+		seq = h.execShare(p, seqSim, "seq")
+		if seqSim.RaceAborted {
+			return nil
+		}
+		sim.Adopt(seqSim) // so that the worker sees the goroutines the library left behind
+		if sim.Tracing {
+			rc.extraTrace = append([]string{"--- (the reference execution, task after task, ran AFTER the execution below) ---"}, seqSim.RenderTrace()...)
+			rc.extraTrace = append(rc.extraTrace, "--- the same program under the drawn schedule (executed first) ---")
+		}
+	} else {
+		seq = h.execShare(p, seqSim, "seq")
+		if seqSim.RaceAborted {
+			// the reference execution already produced a data race report (the
+			// race oracle does not depend on the schedule): nothing more to learn
+			return nil
+		}
+		if sim.Tracing {
+			rc.extraTrace = append([]string{"--- reference: the same program, task after task ---"}, seqSim.RenderTrace()...)
+			rc.extraTrace = append(rc.extraTrace, "--- the same program under the drawn schedule ---")
+		}
+		sim.Adopt(seqSim) // goroutines the library started during the reference execution live on
+		conc = h.execShare(p, sim, "conc")
+		if sim.RaceAborted {
+			return nil // reported as a data race by the worker
+		}
 	}
 
 	for _, t := range p.tasks {
@@ -655,4 +724,72 @@ func sizeArg(op shareOp, n int) int {
 		return n
 	}
 	return int((op.a<<16 ^ op.b<<3 ^ op.c) % uint64(n+3))
+}
+
+func readInto[T, D signal.SignalTypes](d *uint64, view *signal.Buffer[T], op shareOp) {
+	dst := make([]D, sizeArg(op, view.Len()))
+	mix64(d, uint64(signal.Read(view, dst)))
+	for _, v := range dst {
+		mix64(d, bitsOf(v))
+	}
+}
+
+func readStripedInto[T, D signal.SignalTypes](d *uint64, view *signal.Buffer[T], op shareOp) {
+	c := view.Channels()
+	dst := make([][]D, c)
+	for chn := range dst {
+		n := int(op.a+op.b*uint64(chn)) % (view.Length() + 3)
+		if n == view.Length()+2 {
+			continue
+		}
+		dst[chn] = make([]D, n)
+	}
+	mix64(d, uint64(signal.ReadStriped(view, dst)))
+	for _, s := range dst {
+		for _, v := range s {
+			mix64(d, bitsOf(v))
+		}
+	}
+}
+
+func writeFrom[S, T signal.SignalTypes](d *uint64, own *signal.Buffer[T], op shareOp) {
+	vals := make([]S, sizeArg(op, own.Len()))
+	for i := range vals {
+		vals[i] = nice[S](op.b + uint64(i)*37)
+	}
+	mix64(d, uint64(signal.Write(vals, own)))
+}
+
+func writeStripedFrom[S, T signal.SignalTypes](d *uint64, own *signal.Buffer[T], op shareOp) {
+	c := own.Channels()
+	src := make([][]S, c)
+	for chn := range src {
+		n := int(op.a+op.b*uint64(chn)) % (own.Length() + 3)
+		if n == own.Length()+2 {
+			continue
+		}
+		src[chn] = make([]S, n)
+		for i := range src[chn] {
+			src[chn][i] = nice[S](op.c + uint64(chn*131+i))
+		}
+	}
+	mix64(d, uint64(signal.WriteStriped(src, own)))
+}
+
+// pureHelpers calls the package's stateless helpers (bit-depth arithmetic,
+// scale, channel length, frequency conversions) as readers and writers of a
+// real program would around their buffer calls: any state hidden in them is
+// shared between all goroutines.
+func pureHelpers(d *uint64, op shareOp, frames, channels int) {
+	bd := signal.BitDepth(1 + op.a%64)
+	mix64(d, uint64(bd.MaxSignedValue()))
+	mix64(d, bd.MaxUnsignedValue())
+	mix64(d, uint64(bd.MinSignedValue()))
+	mix64(d, uint64(bd.SignedValue(int64(op.b)-30000)))
+	mix64(d, bd.UnsignedValue(op.c*977))
+	mix64(d, uint64(signal.Scale[int64](signal.BitDepth(8+op.a%50), signal.BitDepth(8))))
+	mix64(d, uint64(signal.ChannelLength(frames*channels+int(op.b%3), channels)))
+	f := signal.Frequency(8000 + op.c%40000)
+	mix64(d, uint64(f.Duration(frames+int(op.a%7))))
+	mix64(d, uint64(f.Events(f.Duration(frames))))
 }
